@@ -66,7 +66,32 @@ type SeqCase struct {
 	// SharedOpts: one Once()/Async()/Sequential() value reused for every
 	// subscription of the case instead of a fresh one per Subscribe call.
 	SharedOpts bool `json:"shared_opts,omitempty"`
+	// DetachObs: an Observability is installed whose OnPublishStart returns a
+	// context detached from the caller's cancellation (context.WithoutCancel:
+	// spans that outlive the request).  The interface hands that context to
+	// the handlers, so two consistent readings exist - the bus follows the
+	// returned context (a cancelled caller context then skips nothing) or it
+	// keeps honouring the caller's context - and either is accepted, for the
+	// whole history.  What is not: a Once handler claimed under one reading
+	// and skipped under the other.
+	DetachObs bool `json:"detach_obs,omitempty"`
 }
+
+// detachObs returns contexts that no longer follow the caller's cancellation.
+type detachObs struct{}
+
+func (detachObs) OnPublishStart(ctx context.Context, _ string, _ any) context.Context {
+	return context.WithoutCancel(ctx)
+}
+func (detachObs) OnPublishComplete(context.Context, string) {}
+func (detachObs) OnHandlerStart(ctx context.Context, _ string, _ bool) context.Context {
+	return ctx
+}
+func (detachObs) OnHandlerComplete(context.Context, time.Duration, error) {}
+func (detachObs) OnPersistStart(ctx context.Context, _ string, _ int64) context.Context {
+	return ctx
+}
+func (detachObs) OnPersistComplete(context.Context, time.Duration, error) {}
 
 func accepts(f string, id int) bool {
 	switch f {
@@ -276,8 +301,34 @@ func count(bus *eventbus.EventBus, t int) (int, bool) {
 
 // RunSeq: sequential history against the model.
 func RunSeq(c *SeqCase) *vkit.Outcome {
+	if !c.DetachObs {
+		return runSeq(c, true)
+	}
+	// the bus follows the detached context ...
+	followed := runSeq(c, false)
+	if len(followed.Viol) == 0 {
+		followed.Class("detaching_observability_bus_follows_the_returned_context")
+		return followed
+	}
+	// ... or keeps honouring the caller's
+	honoured := runSeq(c, true)
+	if len(honoured.Viol) == 0 {
+		honoured.Class("detaching_observability_bus_honours_the_caller_context")
+		return honoured
+	}
+	followed.Viol[0].Msg = "with an Observability that detaches the publish context from the caller's cancellation, the history matches neither reading. If the bus follows the returned context: " + followed.Viol[0].Msg + " | If it honours the caller's context: " + honoured.Viol[0].Msg
+	return followed
+}
+
+// runSeq runs the history; honourCancel says whether a cancelled caller
+// context is expected to stop deliveries (always, unless DetachObs).
+func runSeq(c *SeqCase, honourCancel bool) *vkit.Outcome {
 	o := &vkit.Outcome{}
-	bus := eventbus.New(busmodel.Ambient(c.Ambient)...)
+	opts := busmodel.Ambient(c.Ambient)
+	if c.DetachObs {
+		opts = append(busmodel.Ambient(c.Ambient&^busmodel.AmbObs), eventbus.WithObservability(detachObs{}))
+	}
+	bus := eventbus.New(opts...)
 	src := busmodel.NewOptSource(c.SharedOpts)
 	cl := &calls{n: make([]int, len(c.Handlers)), ev: make([][]int, len(c.Handlers))}
 	type mreg struct {
@@ -323,7 +374,7 @@ func RunSeq(c *SeqCase) *vkit.Outcome {
 			cancelledNow := false // the publish context was cancelled by a handler of this publish
 			for _, r := range regs[s.T] {
 				h := c.Handlers[r.h]
-				if s.Cancelled || cancelledNow || !accepts(h.Filter, s.ID) {
+				if (honourCancel && (s.Cancelled || cancelledNow)) || !accepts(h.Filter, s.ID) {
 					if h.Once {
 						sawIneligible[r.h] = true
 					}
